@@ -246,6 +246,10 @@ Proof.
     split; unfold cscale, cmul, cconj, re, im; simpl; field; split; lra.
 Qed.
 
+(* the two functions derive the same NW (hence Kmax and the same tapers) from the same keywords *)
+Theorem nw_csd_is_nw_psd bw nw n Fs : nw_csd bw nw n Fs = nw_psd bw nw n Fs.
+Proof. reflexivity. Qed.
+
 (* ------------------------------------------------------------------ get_spectra (Welch) *)
 Theorem welch_semi_filled lib i j f :
   welch_fxy lib i j f = if (i <=? j)%nat then lib j i f else c0.
